@@ -73,7 +73,8 @@ P = {
   "(event_new/event_free are wrapped).", "Lean 4 proof that the reader's live count is the table size for every history + Spec judge on statistics replies + timer accounting in the harness"),
  "C11": ("proto", True,
   "Lean theorem: the model's rule scan assigns exactly the class of the first rule (in the compiled, name-sorted order) whose criteria all hold, "
-  "none if none matches (classRules_first_match), with fnmatch as the modelled glob subset; D/R class fields and U lines of the real daemon are "
+  "none if none matches (classRules_first_match), with fnmatch as the modelled glob subset; after any session of input histories and reloads the rules "
+  "in force are those of the last file loaded, in strict case-insensitive name order (C11_session_first_match, C11_rules_in_name_order); D/R class fields and U lines of the real daemon are "
   "compared with the model over random rule tables and clients; the address criterion rests on C13's mask theorem.",
   "Lean 4 first-match theorem + correspondence on class fields"),
  "C12": ("addr", True,
@@ -96,8 +97,9 @@ P = {
   "Lean 4 theorems for every history of loads and registrations: no merge or registration commits a double free or use-after-free in the ownership "
   "model (merge_no_fault, history_no_fault), after a successful load every node the file mentions carries the file's value and every other node is "
   "registered and at its default (load_settles / C15_canonical), a second load of the same content changes nothing and logs no hook "
-  "(load_idempotent), and a setting's hook runs iff one is installed and its effective value changed (str/list/pair_hook_iff). Object-hook "
-  "'membership changed' and list-level preservation by late registration are judged on traces, not proved (see evidence). Differential runs of the "
+  "(load_idempotent), and a setting's hook runs iff one is installed and its effective value changed (str/list/pair_hook_iff); an object whose hook "
+  "is not due keeps its children's keys as spelled (walk_unmodified_keys: an entry respelled in place counts as a change). The converse for object "
+  "hooks and list-level preservation by late registration are judged on traces, not proved (see evidence). Differential runs of the "
   "real code over random sequences of files, registrations at every point and all four node kinds, tree dump + hook log compared with the model.",
   "Lean 4 invariant/idempotence/hook proofs on the merge model + Spec judge on implementation traces + correspondence"),
  "C16": ("conf", True,
@@ -108,12 +110,15 @@ P = {
   "through the real config.c and compared with the model and with the Spec tree.",
   "Lean 4 render/parse round-trip and typed-value proofs + Spec judge + correspondence on rendered documents"),
  "C17": ("proto", True,
-  "On the implementation: for pairs (old, new) of service/rule tables (adds, removals, in-place edits) the daemon reloaded from old to new is compared "
-  "with a daemon started on new, on probe clients, up to serials/statistics/slot order (also through the real SIGUSR1 path). Lean theorems on the "
-  "model: the service view and rule vector are rebuilt from the merged section whenever it changed (C17_delivery); with no reference outstanding the "
-  "rescan leaves exactly the services the section names with a known protocol, each with that protocol - the same set as a fresh start "
-  "(C17_services, C17_services_fresh); the rule list equals a fresh start's up to hit counters (C17_rules_fresh). That behaviour depends on the "
-  "service table only up to slot order is not proved. One open finding is recorded (F33: a name respelled in place keeps its old spelling).",
+  "On the implementation: for pairs (old, new) of service/rule tables (adds, removals, in-place edits, respellings) the daemon reloaded from old to "
+  "new is compared with a daemon started on new, on probe clients, up to serials/statistics/slot order (also through the real SIGUSR1 path). Lean "
+  "theorems on the model, which follows the hook runs of conf_replace_value's merge one by one (rescanWalk): the last section iauth_xquery is shown "
+  "has the new file's string entries and it is shown nothing only when nothing it looks at changed (C17_last_rescan, C17_no_rescan); with no "
+  "reference outstanding, after any number of reloads from a fresh start - of any files whose names are C strings - the service table names exactly "
+  "the services of the last file with their protocols, as a fresh start does (C17_reloads, C17_reloads_fresh, C17_services_loads); after any session "
+  "of input histories, timer expiries and reloads the rule table is the compilation of the last file's class section up to hit counters "
+  "(C17_rules_session). That behaviour depends on the service table only up to slot order is not proved. Finding F33 (a name respelled in place "
+  "kept its old spelling) was repaired in /repo and its witness runs on every check.",
   "differential runs (reload vs fresh start) of the implementation + Lean theorems characterising the tables after a reload"),
  "C18": ("logeng", True,
   "Lean 4 theorems on the model of src/log.c: after any reachable history of (re)loads the destinations a message of facility f and severity s "
